@@ -249,7 +249,7 @@ def bases():
     """name -> valid-file descriptor of the small files that are damaged (QUICK_BASES / THOROUGH_BASES)."""
     if _BASES:
         return _BASES
-    from props import c01, c09
+    from props import c01, c06, c09
     label = next(iter(c01.gen_labels('quick', 0)))
     small_lis = ['file_head', _lis_pass(2), 'file_tail']
     dat4 = ['UTIM', 'DATE', 'TIME', 'WAC']
@@ -258,6 +258,9 @@ def bases():
         'RP66V1': {'fmt': 'RP66V1', 'case': label},
         'LIS': {'fmt': 'LIS', 'items': small_lis, 'layout': {'maxlen': 65535}},
         'LISt': {'fmt': 'LIS', 'items': small_lis, 'layout': {'maxlen': 64, 'tif': 'normal'}},
+        # a depth log (X in code 68) and, in a second logical file, a time log whose one channel is a 16 bit counter written one frame per record
+        'LIS79': {'fmt': 'LIS', 'items': small_lis + ['file_head', ['pass', c06.base_spec([c06.chan('TIME', 79)], 3, 1, updown=0), 1], 'file_tail'],
+                  'layout': {'maxlen': 65535}},
         'LAS2.0': {'fmt': 'LAS', 'content': c09.shape_content(**c09.SMALL22), 'layout': {}},
         'BIT': {'fmt': 'BIT', 'passes': [[2, 3, 2, [100, 97, 0.5]]]},
         'DAT': {'fmt': 'DAT', 'case': {'pool': 0, 'decl': dat4, 'sep': 0, 'hdr': dat4, 'dv': [0, 5]}},
@@ -276,7 +279,7 @@ def bases():
     return _BASES
 
 
-QUICK_BASES = ['RP66V1', 'LIS', 'LISt', 'LISr', 'LAS2.0', 'BIT', 'DAT']
+QUICK_BASES = ['RP66V1', 'LIS', 'LISt', 'LISr', 'LIS79', 'LAS2.0', 'BIT', 'DAT']
 THOROUGH_BASES = QUICK_BASES + ['RP66V1m', 'LISreel', 'LAS1.2', 'BIT2', 'DAT6']
 
 _BASE_BYTES = {}
@@ -517,6 +520,10 @@ def _lis_item_lists():
     small += [['file_head', ['pass', pa, 0], 'file_tail', 'file_head', ['pass', pb, 1], 'file_tail'],
               ['file_head', ['pass', pb, 1], 'file_tail', 'file_head', ['pass', pa, 0], 'file_tail'],
               ['file_head', ['pair', pa, 0, pt, 1, 'ABAB'], 'file_tail']]
+    # X axes of different widths in one file: a depth log (four byte X) and a time log whose one channel is a 16 bit counter, one frame per record
+    p79 = c06.base_spec([c06.chan('TIME', 79)], 3, 1, updown=0)
+    small += [['file_head', ['pass', pa, 0], 'file_tail', 'file_head', ['pass', p79, 1], 'file_tail'],
+              ['file_head', ['pass', p79, 1], 'file_tail', 'file_head', ['pass', pa, 0], 'file_tail']]
     for items in small + [it for it, _layout, _ops in c06.gen_I('quick')]:
         key = repr(items)
         if key not in seen:
@@ -624,8 +631,22 @@ def _valid(v):
     return {'k': 'valid', 'v': v}
 
 
+def _caller_keeps_a_scan_result():
+    """A caller that scans a file for its padding (as ScanPhysRec does) and then prunes the result it was given: nothing of that
+    may show in later identifications."""
+    from TotalDepth.LIS.core import File
+    try:
+        for blob in (base_bytes('LIS'), b'not a LIS file at all, just text\n' * 4):
+            got = File.scan_file_with_different_padding(io.BytesIO(blob), True)
+            if isinstance(got, dict):
+                got.clear()
+    except Exception:  # noqa  (the scan itself is not what C20 is about)
+        pass
+
+
 def run_shard(shard, tier):
     res = Result()
+    _caller_keeps_a_scan_result()
     part = shard['part']
     if part == 'rp66_labels':
         from props import c01
